@@ -108,7 +108,8 @@ def gen(rng, tier, ctx):
     if split:
         # names imported only under TYPE_CHECKING are resolvable through the diagram: keep every class in it
         subset = rng.sample(names, len(names))
-    return {"spec": spec, "subset": subset, "ops": ops, "arg": rng.randrange(1000), "split": split}
+    return {"spec": spec, "subset": subset, "ops": ops, "arg": rng.randrange(1000), "split": split,
+            "postponed": split or rng.random() < 0.6}
 
 
 def witnesses():
@@ -176,7 +177,9 @@ def run(case, ctx):
     else:
         path = os.path.join(ctx["workroot"], modname + ".py")
         with open(path, "w") as fh:
-            fh.write(modelgen.render(spec))
+            fh.write(modelgen.render(spec, postponed=case.get("postponed", True)))
+        if not case.get("postponed", True):
+            C["evaluated_annotation_models"] += 1
         try:
             mod = importlib.import_module(modname)
         finally:
